@@ -153,6 +153,7 @@ def run(ck):
         processed = []
         last_dump = {}
         pending_act = None
+        other_act = False
         ev_seen = {}
         enq_ids = []
         tx_ev = {}
@@ -177,6 +178,7 @@ def run(ck):
                     dirty.add(ci)          # fed while still in the listen backlog / already gone: later frames are shifted
                 elif bytes.fromhex(t[2]) == apci.STARTDT_ACT and ci not in dirty:
                     pending_act = ci
+                    other_act = False
             elif t[0] == "tick":
                 blk = []
                 while oi < len(out):
@@ -218,8 +220,14 @@ def run(ck):
                             cur_open -= 1
                         elif p[2] == "ACTIVATED":
                             active[ci] = True
+                            if ci != pending_act:
+                                # a STARTDT buffered on a connection that was still in the listen backlog was served in the same
+                                # round: two activations raced, the one-step activation statements do not apply to this block
+                                other_act = True
                         elif p[2] == "DEACTIVATED":
                             active.pop(ci, None)
+                            if ci != pending_act and ci in dirty:
+                                other_act = True    # its own buffered STOPDT, not an effect of the activation looked at
                     elif p[0] == "tx":
                         ci = int(p[1][1:])
                         for f in apci.split_stream(bytes.fromhex(p[2]))[0]:
@@ -272,6 +280,18 @@ def run(ck):
                 # activation correspondence: dump before / after a STARTDT
                 if pending_act is not None and pending_act not in d:
                     pending_act = None
+                # oracle at every dump: at most one started connection per group
+                per = {}
+                for c, (g, st) in d.items():
+                    key = c if mode == 1 else (g if mode == 2 else 0)
+                    if st == 1:
+                        per.setdefault(key, []).append(c)
+                for key, cs in per.items():
+                    if len(cs) > 1:
+                        bad.append(("two-active", "connections %s of group %s are both started" % (cs, key)))
+                if pending_act is not None and other_act:
+                    ck.count("activation-raced-with-backlog-connection")
+                    pending_act = None
                 if pending_act is not None and last_dump and pending_act in last_dump and pending_act in d:
                     order = sorted(last_dump)
                     if sorted(d) == order:
@@ -279,15 +299,6 @@ def run(ck):
                         gmap = (lambda g: max(g, 0))
                         ml.append("act %d %s" % (idx, " ".join("1:%d:%d" % (gmap(last_dump[c][0]), last_dump[c][1]) for c in order)))
                         mexp.append(("act", " ".join("1:%d:%d" % (gmap(d[c][0]), d[c][1]) for c in order)))
-                    # oracle: at most one started per group after the activation
-                    per = {}
-                    for c, (g, st) in d.items():
-                        key = c if mode == 1 else (g if mode == 2 else 0)
-                        if st == 1:
-                            per.setdefault(key, []).append(c)
-                    for key, cs in per.items():
-                        if len(cs) > 1:
-                            bad.append(("two-active", "connections %s of group %s are both started" % (cs, key)))
                     if pending_act in alive and d[pending_act][1] != 1:
                         bad.append(("not-activated", "c%d not started after its STARTDT act" % pending_act))
                     pending_act = None
